@@ -276,6 +276,6 @@ func plans(tier string) []mc.Plan {
 }
 
 func init() {
-	mc.Register(&mc.Check{ID: "C11", Plans: plans, Budget: map[string]int{"quick": 120, "thorough": 1500},
+	mc.Register(&mc.Check{ID: "C11", Plans: plans, Budget: map[string]int{"quick": 200, "thorough": 1500},
 		Notes: "C11 (engine part): sequences of three calls with/without metadata on one connection; the first call optionally abandoned by a canceller thread placed at every point (deviation bound 1-2), e.g. between its metadata packet and its invoke; oracle: handler r sees exactly the map attached to call r."})
 }
